@@ -11,9 +11,38 @@ PROP = dict(
           "interpreter against the funding output on both sides, each output == model balance (+commit fee+anchors "
           "for the opener) - fee for the payer, outputs below the owner's dust limit omitted, outputs+fee+trimmed == "
           "capacity up to the two sub-satoshi remainders. Non-trivial = fee within 1 sat of the payer's balance, a "
-          "trimmed output, a refused fee or a custom payer. Distinct = distinct (params, trace, fee, payer, scripts)."),
+          "trimmed output, a refused fee or a custom payer. Distinct = distinct (params, trace, fee, payer, scripts). "
+          "(2) legacy negotiation (package chancloser): on a simulator channel pair in a generated HTLC-free state two real "
+          "ChanCloser instances (real LightningChannels, harness mirror of peer.MusigChanCloser for taproot) negotiate: "
+          "generated ideal fees >=100 sat (ratio <=40; small, at the payer's balance +-2, at its dust limit +-2, arbitrary), "
+          "generated MaxFee of the requesting parties (unset=3x, ==ideal, ==peer's ideal +-1, up to 50x), delivery scripts "
+          "(P2WPKH/P2WSH/P2TR/witness v2-16), close asked by A, B or both, Shutdown/ClosingSigned through lnd's wire codec in "
+          "per-direction FIFO order interleaved with the two flush notifications by generated choice; up to "
+          "VERIF_C17_PER_SIM negotiations per channel state. Oracle: never more than 64 closing_signed deliveries and never "
+          "stuck; affordable ideal fees with the non-opener's ideal within the opener's cap => no error, both "
+          "closeFinished, byte-identical ClosingTx (witness included), broadcast exactly once each, agreed fee named in a "
+          "ClosingSigned of both, between the two ideal fees and <= opener's cap, and the part-1 output oracle with the opener "
+          "paying; non-opener's ideal above the cap => that agreement or ErrProposalExceedsMaxFee from the opener with "
+          "nobody broadcasting; if one party broadcasts the other must finish with the same tx. Non-trivial = >=3 distinct "
+          "fee proposals, agreed fee within 1 sat of the payer's balance, a trimmed output, or the cap error. "
+          "(3) RBF cooperative close (package chancloser): the protofsm states of rbf_coop_transitions.go are driven through "
+          "ProcessEvent by a harness executor that mirrors StateMachine.applyEvents (no goroutines), one machine per party "
+          "with the real channel as CloseSigner, a ChanStateObserver mirroring peer/chan_observer.go (with/without link), "
+          "musig sessions for taproot, the real RbfMsgMapper, a fee-estimator stub mapping every generated rate to a "
+          "generated absolute fee (0, small, closer's balance +-2, its dust limit +-2, arbitrary); close asked by A, B or "
+          "both, up to 2 RBF bumps per party, generated interleaving of deliveries, post-send events, flush notifications "
+          "and bumps. Oracle: a party offers exactly the fees the model says it can pay (CloseErr on an unaffordable bump), "
+          "every offer is countersigned and completed by both with the byte-identical tx, sequence 0xfffffffd, lock time "
+          "as offered, part-1 output oracle with the closer paying and the closee receiving its full balance; a state "
+          "machine may fail only on an offer whose tx would have no outputs. Non-trivial = an offer completed and "
+          "(trimmed output, fee within 1 sat of the closer's balance, an RBF iteration, a CloseErr or an early offer "
+          "stashed), or the no-output refusal. Labels are prefixed neg:/rbf:."),
     assumptions=[
-        "legacy fee negotiation and RBF-coop state machines (chancloser) are covered by TestVerifC17Negotiation if listed in the job table; otherwise only the transaction clause is decided",
+        "legacy negotiation: the 64-round bound is checked for ideal-fee ratios up to 40 (worst case ~44 messages by the 10%/30% rule); larger ratios are not generated",
+        "legacy negotiation: a configured MaxFee is never below the party's own ideal fee rate (rpcserver rejects that) and only a party that was asked to close by its user has one; fee estimator stub: absolute fee == numeric value of the rate",
+        "frozen-channel refusals are out of scope: the closers run at height 1,000,000 >= every generated thaw height",
+        "RBF close: Environment.BlockHeight (the announced lock time) is 0 as left by its only constructor peer.initRbfChanCloser; a non-zero value makes lnd announce a lock time it does not sign for (latent, see notes/C17b.md); channels with a tapscript root are excluded (initRbfChanCloser refuses them); SpendEvent/CloseFin, upfront shutdown scripts, thaw-height and malformed-message rejections are not driven",
+        "RBF close: the user's bump is only sent while the local half is in ClosePending (what peer.Brontide waits for); which of the three closing_complete signature fields is used is not compared with the transaction's outputs",
     ],
     jobs=dict(
         quick=[job("lnwallet", "^TestVerifC17CoopCloseTx$", ["TestVerifC17CoopCloseTx"], 40, shards=8, timeout=900,
